@@ -256,12 +256,43 @@ pub fn run_matrix(cfg: &RunCfg, _replay: Option<&[Step]>) -> RunOutput {
                     }
                 }
                 // ---- open ----
+                // what the library creates is looked at the instant it exists (ticks right after
+                // the directory / the file are created), not only once the constructor is done
+                let at_creation: std::rc::Rc<std::cell::RefCell<Vec<(String, u32)>>> = Default::default();
+                {
+                    let (seen, p2, d2) = (at_creation.clone(), path.clone(), dir.clone());
+                    mdk_sqlite_storage::verif::set_thread_hook(Some(Box::new(move |p| {
+                        use mdk_sqlite_storage::verif::Point;
+                        let mode = |x: &std::path::Path| std::fs::metadata(x).map(|m| m.permissions().mode() & 0o777).unwrap_or(0);
+                        match p {
+                            Point::Open("precreate:file_created") => seen.borrow_mut().push(("database file".into(), mode(&p2))),
+                            Point::Open("precreate:directory_created") => {
+                                seen.borrow_mut().push(("directory".into(), mode(&d2)));
+                                if let Some(parent) = d2.parent() {
+                                    seen.borrow_mut().push(("intermediate directory".into(), mode(parent)));
+                                }
+                            }
+                            _ => {}
+                        }
+                    })));
+                }
                 let opened: Result<MdkSqliteStorage, String> = match ctor {
                     "new_keyring_has" | "new_keyring_lacks" => MdkSqliteStorage::new(&path, &svc, kid).map_err(|e| e.to_string()),
                     "with_key_a" => MdkSqliteStorage::new_with_key(&path, EncryptionConfig::new(key_a)).map_err(|e| e.to_string()),
                     "with_key_b" => MdkSqliteStorage::new_with_key(&path, EncryptionConfig::new(key_b)).map_err(|e| e.to_string()),
                     _ => MdkSqliteStorage::new_unencrypted(&path).map_err(|e| e.to_string()),
                 };
+                mdk_sqlite_storage::verif::set_thread_hook(None);
+                if file_state == "missing" {
+                    for (what, mode) in at_creation.borrow().iter() {
+                        if mode & 0o077 != 0 {
+                            problems.push(("created-accessible-to-others".into(), format!("umask {umask:o} {ctor}: {what} had mode {mode:o} right after it was created")));
+                        }
+                    }
+                    if !at_creation.borrow().is_empty() {
+                        *out.probes.entry("modes_seen_at_creation".into()).or_insert(0) += at_creation.borrow().len() as u64;
+                    }
+                }
                 let ok = opened.is_ok();
                 let data_ok = opened.as_ref().map(|s| read_back(s)).unwrap_or(false);
                 sig.push(format!("{file_state}/{ctor}/{}", if ok { "open" } else { "refused" }));
@@ -314,6 +345,12 @@ pub fn run_matrix(cfg: &RunCfg, _replay: Option<&[Step]>) -> RunOutput {
                         let dmode = std::fs::metadata(&dir).map(|m| m.permissions().mode() & 0o777).unwrap_or(0);
                         if dmode & 0o077 != 0 {
                             problems.push(("library-created-directory-mode".into(), format!("umask {umask:o} {ctor}: directory mode {dmode:o}")));
+                        }
+                        if let Some(parent) = dir.parent() {
+                            let pmode = std::fs::metadata(parent).map(|m| m.permissions().mode() & 0o777).unwrap_or(0);
+                            if pmode & 0o077 != 0 {
+                                problems.push(("library-created-directory-mode".into(), format!("umask {umask:o} {ctor}: intermediate directory mode {pmode:o}")));
+                            }
                         }
                     }
                     for suffix in ["-journal", "-wal", "-shm"] {
